@@ -13,6 +13,7 @@
 package deviceshare
 
 import (
+	"context"
 	"fmt"
 	"sort"
 	"strings"
@@ -21,6 +22,7 @@ import (
 	corev1 "k8s.io/api/core/v1"
 	"k8s.io/apimachinery/pkg/api/resource"
 	metav1 "k8s.io/apimachinery/pkg/apis/meta/v1"
+	"k8s.io/kubernetes/pkg/scheduler/framework"
 	"pgregory.net/rapid"
 
 	apiext "github.com/koordinator-sh/koordinator/apis/extension"
@@ -390,5 +392,177 @@ func TestVerifC07JointAllocate(t *testing.T) {
 			return
 		}
 		w.checkLedger(c, t, true, ctx)
+	})
+}
+
+// ---------------------------------------------------------------- joint pods through the plugin's scheduling cycle
+
+// TestVerifC07JointReserve schedules a few pods asking GPUs plus secondary devices (RDMA, sometimes FPGA) with the
+// joint-allocate annotation through PreFilter / Filter / Reserve, Reserve being called as the framework extender calls it
+// (Reserve phase recorded in the cycle state), on nodes whose Device object may carry the secondary-device-well-planned
+// label. What a successful Reserve commits must contain every asked device type with the asked number of devices and
+// amounts, each of which was free at that moment; a refusal needs a device type of which too few devices had the amount free.
+func TestVerifC07JointReserve(t *testing.T) {
+	c07Silence()
+	base := c07NewPlugin(t)
+	rec := vk.New(t, "C07", "jointReserve")
+	rapid.Check(t, func(t *rapid.T) {
+		c := rec.Begin()
+		defer c.End()
+		nSw := rapid.SampledFrom([]int{1, 1, 2, 2, 3}).Draw(t, "switches")
+		var inv []c07Dev
+		minor := map[schedulingv1alpha1.DeviceType]int{}
+		switchOfGPU := map[int]int{}
+		add := func(dt schedulingv1alpha1.DeviceType, s int, res map[corev1.ResourceName]int64) {
+			inv = append(inv, c07Dev{Type: dt, Minor: minor[dt], Health: rapid.IntRange(0, 11).Draw(t, "healthy") > 0, NUMA: s / 2, PCIe: s, Res: res})
+			if dt == schedulingv1alpha1.GPU {
+				switchOfGPU[minor[dt]] = s
+			}
+			minor[dt]++
+		}
+		for s := 0; s < nSw; s++ {
+			for i, n := 0, rapid.SampledFrom([]int{1, 1, 2}).Draw(t, "gpusOnSwitch"); i < n; i++ {
+				add(schedulingv1alpha1.GPU, s, map[corev1.ResourceName]int64{apiext.ResourceGPUCore: 100, apiext.ResourceGPUMemoryRatio: 100, apiext.ResourceGPUMemory: 16 << 30})
+			}
+			for i, n := 0, rapid.SampledFrom([]int{0, 1, 1, 2, 3}).Draw(t, "nicsOnSwitch"); i < n; i++ {
+				add(schedulingv1alpha1.RDMA, s, map[corev1.ResourceName]int64{apiext.ResourceRDMA: 100})
+			}
+			for i, n := 0, rapid.SampledFrom([]int{0, 0, 1}).Draw(t, "fpgasOnSwitch"); i < n; i++ {
+				add(schedulingv1alpha1.FPGA, s, map[corev1.ResourceName]int64{apiext.ResourceFPGA: 100})
+			}
+		}
+		sort.SliceStable(inv, func(i, j int) bool { return c07TypeOrder(inv[i].Type) < c07TypeOrder(inv[j].Type) })
+		w := c07BareWorld(t, inv)
+		wellPlanned := rapid.Bool().Draw(t, "secondaryDeviceWellPlanned")
+		dev := c07BuildDevice(w.inv)
+		if rapid.Bool().Draw(t, "labelled") || wellPlanned {
+			dev.Labels = map[string]string{apiext.LabelSecondaryDeviceWellPlanned: fmt.Sprint(wellPlanned)}
+		}
+		w.cache.onDeviceUpdate(dev, dev)
+		plugin := *base
+		pl := &plugin
+		pl.nodeDeviceCache = w.cache
+		pl.scorer = w.scorer
+		nodeInfo := framework.NewNodeInfo()
+		nodeInfo.SetNode(w.node)
+		bg := context.Background()
+
+		var hist []string
+		hist = append(hist, fmt.Sprintf("inventory (well-planned=%v): %s", wellPlanned, w.invString()))
+		ctx := func() string { return "history=[" + strings.Join(hist, " ; ") + "]" }
+		var sawWholeJointOnWellPlanned, sawSharedJoint, sawServed, sawRefused, sawFPGA bool
+		served := 0
+		for i, n := 0, rapid.IntRange(1, 4).Draw(t, "pods"); i < n; i++ {
+			req := c07Request{Pod: corev1.ResourceList{}, Per: map[schedulingv1alpha1.DeviceType]map[corev1.ResourceName]int64{}, Count: map[schedulingv1alpha1.DeviceType]int{}, MaxCount: map[schedulingv1alpha1.DeviceType]int{}}
+			var descs []string
+			whole := rapid.IntRange(0, 3).Draw(t, "wholeGPU") > 0
+			if whole {
+				k := int64(1)
+				if rapid.IntRange(0, 2).Draw(t, "severalGPUs") == 0 {
+					k = rapid.Int64Range(1, int64(minor[schedulingv1alpha1.GPU])).Draw(t, "gpus")
+				}
+				req.Pod[apiext.ResourceNvidiaGPU] = *resource.NewQuantity(k, resource.DecimalSI)
+				req.Per[schedulingv1alpha1.GPU] = map[corev1.ResourceName]int64{apiext.ResourceGPUCore: 100, apiext.ResourceGPUMemoryRatio: 100}
+				req.Count[schedulingv1alpha1.GPU] = int(k)
+				descs = append(descs, fmt.Sprintf("nvidia.com/gpu=%d", k))
+			} else {
+				v := rapid.SampledFrom([]int64{50, 25, 10, 99}).Draw(t, "gpuPercent")
+				req.Pod[apiext.ResourceGPU] = *resource.NewQuantity(v, resource.DecimalSI)
+				req.Per[schedulingv1alpha1.GPU] = map[corev1.ResourceName]int64{apiext.ResourceGPUCore: v, apiext.ResourceGPUMemoryRatio: v}
+				req.Count[schedulingv1alpha1.GPU] = 1
+				descs = append(descs, fmt.Sprintf("koordinator.sh/gpu=%d", v))
+			}
+			types := []schedulingv1alpha1.DeviceType{schedulingv1alpha1.GPU, schedulingv1alpha1.RDMA}
+			secondary := []schedulingv1alpha1.DeviceType{schedulingv1alpha1.RDMA}
+			if rapid.IntRange(0, 3).Draw(t, "withFPGA") == 0 {
+				secondary = append(secondary, schedulingv1alpha1.FPGA)
+				sawFPGA = true
+				if rapid.Bool().Draw(t, "fpgaJoint") {
+					types = append(types, schedulingv1alpha1.FPGA)
+				}
+			}
+			for _, dt := range secondary {
+				rn := c07TypeResource(dt)
+				v := rapid.SampledFrom([]int64{1, 1, 50, 100, 100, 200}).Draw(t, string(dt))
+				count := int64(1)
+				if v > 100 {
+					count = v / 100
+				}
+				req.Pod[rn] = *resource.NewQuantity(v, resource.DecimalSI)
+				req.Per[dt] = map[corev1.ResourceName]int64{rn: v / count}
+				req.Count[dt] = int(count)
+				descs = append(descs, fmt.Sprintf("%s=%d", dt, v))
+			}
+			req.Desc = fmt.Sprintf("%s joint%v", strings.Join(descs, " "), types)
+			name := fmt.Sprintf("p%d", i)
+			pod := c07NewPod(name, req.Pod)
+			if err := apiext.SetDeviceJointAllocate(pod, &apiext.DeviceJointAllocate{DeviceTypes: types}); err != nil {
+				t.Fatalf("cannot annotate pod: %v", err)
+			}
+			sawWholeJointOnWellPlanned = sawWholeJointOnWellPlanned || (whole && wellPlanned)
+			sawSharedJoint = sawSharedJoint || !whole
+			cs := framework.NewCycleState()
+			if _, st := pl.PreFilter(bg, cs, pod, nil); !st.IsSuccess() {
+				c.Class("request-rejected-before-allocation")
+				continue
+			}
+			free := c07Free(w.modelTotal(), w.modelUsed())
+			if st := pl.Filter(bg, cs, pod, nodeInfo); !st.IsSuccess() {
+				hist = append(hist, fmt.Sprintf("schedule %s [%s]: Filter refused (%s)", name, req.Desc, c07Status(st)))
+				sawRefused = true
+				if w.checkAllocation(c, t, req, free, nil, "Filter: "+c07Status(st), ctx) {
+					return
+				}
+				continue
+			}
+			st := c07Reserve(pl, cs, pod)
+			if !st.IsSuccess() {
+				pl.Unreserve(bg, cs, pod, c07Node)
+				hist = append(hist, fmt.Sprintf("schedule %s [%s]: Reserve refused (%s)", name, req.Desc, c07Status(st)))
+				sawRefused = true
+				if w.checkAllocation(c, t, req, free, nil, "Reserve: "+c07Status(st), ctx) {
+					return
+				}
+				continue
+			}
+			state, _ := getPreFilterState(cs)
+			if state == nil || state.allocationResult == nil {
+				t.Fatalf("Reserve succeeded without an allocation result; %s", ctx())
+			}
+			result := state.allocationResult
+			hist = append(hist, fmt.Sprintf("schedule %s [%s] -> %s", name, req.Desc, c07AllocStr(result)))
+			sw := map[int]bool{}
+			for _, a := range result[schedulingv1alpha1.GPU] {
+				sw[switchOfGPU[int(a.Minor)]] = true
+			}
+			for _, dt := range types[1:] { // a joint allocation may hand out one secondary device per switch of the GPUs
+				req.MaxCount[dt] = len(sw)
+			}
+			if w.checkAllocation(c, t, req, free, result, "", ctx) {
+				return
+			}
+			sawServed = true
+			served++
+			bound, _ := c07Bind(pod, result)
+			p := &c07Live{Name: name, Sched: pod, Bound: bound, Alloc: result, Flat: c07AllocFlat(result), Requested: c07Requested(req)}
+			w.live[name] = p
+			if w.checkNotOvercommittedBy(c, t, p, ctx) {
+				return
+			}
+			if w.checkLedger(c, t, true, ctx) {
+				return
+			}
+		}
+		c.ClassIf(wellPlanned, "node-labelled-secondary-device-well-planned")
+		c.ClassIf(sawWholeJointOnWellPlanned, "whole-gpu-joint-pod-on-well-planned-node")
+		c.ClassIf(sawWholeJointOnWellPlanned && sawServed, "whole-gpu-joint-pod-on-well-planned-node+some-pod-served")
+		c.ClassIf(sawSharedJoint, "shared-gpu-joint-pod")
+		c.ClassIf(sawFPGA, "fpga-asked-too")
+		c.ClassIf(sawServed, "some-pod-served")
+		c.ClassIf(sawRefused, "some-pod-refused")
+		if served > 0 && (wellPlanned || served >= 2) {
+			c.NonTrivial(hist)
+		}
+		c.Sample(map[string]any{"history": hist})
 	})
 }
